@@ -196,6 +196,36 @@ pub fn judge(c: &Case, st: &mut Stats) -> Verdict {
             return fail("v1::Header::new(text, Unknown)", "Unknown".into(), format!("{:?}", h.addresses));
         }
     }
+    // the builder's constructor takes anything that converts into Addresses as well (the v2 counterpart of Header::new): for
+    // every command and transport the header it builds carries these endpoints in these roles
+    {
+        use ppp::v2::{Builder, Protocol};
+        let protos = [Protocol::Unspecified, Protocol::Stream, Protocol::Datagram];
+        let vc = 0x20 | ((sp as u8 ^ dp as u8) & 1);
+        let proto = protos[(sp as usize + dp as usize) % 3];
+        for (name, built) in [
+            ("Builder::with_addresses(.., (SocketAddr::V4, SocketAddr::V4))", crate::engine::guard(|| Builder::with_addresses(vc, proto, (s4, d4)).build())),
+            ("Builder::with_addresses(.., (SocketAddr::V6, SocketAddr::V6))", crate::engine::guard(|| Builder::with_addresses(vc, proto, (s6, d6)).build())),
+            ("Builder::with_addresses(.., IPv4)", crate::engine::guard(|| Builder::with_addresses(vc, proto, v2::IPv4::new(sa4, da4, sp, dp)).build())),
+            ("Builder::with_addresses(.., IPv6)", crate::engine::guard(|| Builder::with_addresses(vc, proto, v2::IPv6::new(sa6, da6, sp, dp)).build())),
+        ] {
+            let v6 = name.contains("V6") || name.contains("IPv6");
+            let ok = match &built {
+                Ok(Ok(bytes)) => match v2::Header::try_from(&bytes[..]) {
+                    Ok(h) => match h.addresses {
+                        v2::Addresses::IPv4(y) => !v6 && ok4(&y),
+                        v2::Addresses::IPv6(y) => v6 && ok6(&y),
+                        _ => false,
+                    },
+                    Err(_) => false,
+                },
+                _ => false,
+            };
+            if !ok {
+                return fail(name, if v6 { want6.clone() } else { want4.clone() }, format!("version/command {:#04x}, {:?}: {}", vc, proto, crate::imp::short(&format!("{:?}", built.as_ref().map(|r| r.as_ref().map(|b| b.len()))))));
+            }
+        }
+    }
     st.class("socket-pairs");
     Ok(())
 }
